@@ -9,6 +9,8 @@ package main
 
 import (
 	"github.com/cosmos/cosmos-sdk/x/authz"
+	govv1 "github.com/cosmos/cosmos-sdk/x/gov/types/v1"
+	"github.com/cosmos/cosmos-sdk/x/group"
 	"bytes"
 	"fmt"
 	"math/rand"
@@ -60,6 +62,26 @@ func msgLabel(e *txEnv, m sdk.Msg) string {
 			return "exec ?"
 		}
 		segs := []string{fmt.Sprintf("exec %s %d", e.addr(m.Grantee), len(inner))}
+		for _, im := range inner {
+			segs = append(segs, msgLabel(e, im))
+		}
+		return strings.Join(segs, " ; ")
+	case *govv1.MsgSubmitProposal:
+		inner, err := m.GetMsgs()
+		if err != nil {
+			return "govsubmit ?"
+		}
+		segs := []string{fmt.Sprintf("govsubmit %s %d", e.addr(m.Proposer), len(inner))}
+		for _, im := range inner {
+			segs = append(segs, msgLabel(e, im))
+		}
+		return strings.Join(segs, " ; ")
+	case *group.MsgSubmitProposal:
+		inner, err := m.GetMsgs()
+		if err != nil {
+			return "groupsubmit ?"
+		}
+		segs := []string{fmt.Sprintf("groupsubmit %s %d", e.addr(m.GroupPolicyAddress), len(inner))}
 		for _, im := range inner {
 			segs = append(segs, msgLabel(e, im))
 		}
@@ -232,6 +254,31 @@ func init() {
 			pair(wrap(dw), wrap(ar0))
 			pair(wrap(cr), wrap(up))
 			pair(wrap(&pnfttypes.MsgBurnPNFTRequest{DenomId: "d", Id: "1", Burner: o}), wrap(&pnfttypes.MsgDeleteDenomRequest{Id: "d", Remover: o}))
+		}
+		// ... and inside the two other SDK wrappers that carry arbitrary messages and are wired into the application:
+		// a governance (v1) proposal and a group proposal, whose sign bytes come from those modules' amino codecs
+		{
+			gov := func(m sdk.Msg) sdk.Msg {
+				x, err := govv1.NewMsgSubmitProposal([]sdk.Msg{m}, sdk.NewCoins(sdk.NewInt64Coin(feeDenom, 1)), o, "", "t", "s")
+				if err != nil {
+					panic(err)
+				}
+				return x
+			}
+			grp := func(m sdk.Msg) sdk.Msg {
+				x, err := group.NewMsgSubmitProposal(o, []string{o}, []sdk.Msg{m}, "", group.Exec_EXEC_TRY, "t", "s")
+				if err != nil {
+					panic(err)
+				}
+				return x
+			}
+			for _, wrap := range []func(sdk.Msg) sdk.Msg{gov, grp} {
+				pair(wrap(aw0), wrap(dw))
+				pair(wrap(aw0), wrap(ar0))
+				pair(wrap(dw), wrap(ar0))
+				pair(wrap(cr), wrap(up))
+				pair(wrap(&pnfttypes.MsgBurnPNFTRequest{DenomId: "d", Id: "1", Burner: o}), wrap(&pnfttypes.MsgDeleteDenomRequest{Id: "d", Remover: o}))
+			}
 		}
 		pair(aw0, dw)
 		pair(aw0, ar0)
